@@ -4,7 +4,10 @@ Product walk (all tuples within a deviation bound of a default configuration) ov
 and non-collinear moments incl. zeros, custom masses) x supercell/primitive matrices x dataset kind x force-constant
 layout x NAC x all 2^5 settings dictionaries x compression x calculator x value scale: Phonopy.save -> phonopy.load
 field by field and by phonons; FORCE_SETS / FORCE_CONSTANTS / hdf5 / BORN writers against their parsers; dataset
-type-1 <-> type-2 conversion.
+type-1 <-> type-2 conversion.  Histories: another save() with each settings dictionary just before the save under
+test; masses assigned through the setter (1-3 times) before saving; force constants kept in force_constants.hdf5 with
+each calculator's unit next to a yaml without them; a file holding forces AND other force constants loaded with
+default options (the stored ones win).
 """
 from __future__ import annotations
 
